@@ -103,6 +103,15 @@ pub fn check(ctx: &mut Ctx, case: &Case) -> CheckResult {
             ensure!(matches!(lossless::Copyright::from_str(text), Err(lossless::Error::NotMachineReadable)), "gate/lossless-strict", "lossless from_str must refuse {:?} as not machine-readable", text);
             ensure!(matches!(lossless::Copyright::from_str_relaxed(text), Err(lossless::Error::NotMachineReadable)), "gate/lossless-relaxed", "lossless from_str_relaxed must refuse {:?} as not machine-readable", text);
             ensure_eq!(lossy::Copyright::from_str(text).err(), Some("Not machine readable".to_string()), "gate/lossy", "lossy from_str of {:?}", text);
+            // the same gate through the readers that take a path
+            let path = std::env::temp_dir().join(format!("vp-c17-{}.copyright", std::process::id()));
+            if std::fs::write(&path, text).is_ok() {
+                let a = lossless::Copyright::from_file(&path);
+                let b = lossless::Copyright::from_file_relaxed(&path);
+                let _ = std::fs::remove_file(&path);
+                ensure!(matches!(a, Err(lossless::Error::NotMachineReadable)), "gate/lossless-file", "lossless from_file must refuse {:?} as not machine-readable", text);
+                ensure!(matches!(b, Err(lossless::Error::NotMachineReadable)), "gate/lossless-file-relaxed", "lossless from_file_relaxed must refuse {:?} as not machine-readable", text);
+            }
             Ok(())
         }
         Case::Grid { pattern, path_len } => {
